@@ -30,14 +30,16 @@ MANIFEST = {
             "outcome oob, a failed assert is abort, an exhausted iteration budget is fuel) and it is proved for every byte list and every "
             "name-buffer size that none of the three happens (compression loops included: the budget ns+66 always suffices), that all "
             "offsets stay inside the datagram and all names are NUL-terminated inside their buffers. partial for faithfulness: for every "
-            "message in the encoder relation (labels 1..63, compression pointers to encoded suffixes anywhere in the datagram, names < 256 "
-            "octets, at most 65 pointer hops per name, no pointer to a bare root label behind a label) the decoded header, question and "
-            "A/AAAA/PTR/CNAME/other records equal the encoded ones, the decoded text determines the labels, header pack/unpack and the "
-            "packed query (with and without EDNS) round-trip; the two excluded regions are proved as counterexamples and kept as known "
-            "findings (a 66-hop compressed name is rejected; label + pointer to the root label decodes with a trailing dot), as is the "
-            "memcpy(dst, NULL, 0) of the EDNS OPT record. The real code runs under ASan/UBSan with exact-size heap buffers against the "
-            "model and against a reference encoder and reference decoder written from RFC 1035",
-    "note": "trusted: Lean kernel (+axioms as printed), translator of limits, harness, python reference codec; "
+            "message in the encoder relation (labels 1..63, compression pointers to encoded suffixes anywhere in the datagram, the root "
+            "label included, names < 256 octets, at most 65 pointer hops per name) the decoded header, question and A/AAAA/PTR/CNAME/"
+            "other records equal the encoded ones, the decoded text determines the labels, header pack/unpack and the packed query (with "
+            "and without EDNS, no null memcpy) round-trip; the excluded region is proved as a counterexample and kept as a known finding "
+            "(a 66-hop compressed name is rejected: deliberate loop guard). Two defects found here are fixed in /repo (17d6e84 memcpy "
+            "from a null RDATA pointer when packing the OPT record; fd17dd6 trailing dot when a label is followed by a pointer to the "
+            "root label): the model follows the fixed code (version flags re-read from the source every run), the former counterexamples "
+            "are kept as prefix_* theorems and the witnesses as regression cases. The real code runs under ASan/UBSan with exact-size "
+            "heap buffers against the model and against a reference encoder and reference decoder written from RFC 1035",
+    "note": "trusted: Lean kernel (+axioms as printed), translator of limits and version flags, harness, python reference codec; "
             "specified not verified: libc primitives; not modelled: rfc1035QueryCompare, rfc1035ErrorMessage, heap management of "
             "rfc1035MessageDestroy/RRDestroy (ASan only); not proved: the converse (every accepted name is an encoding)",
     "technique": "Lean 4 proof (induction on the iteration budget with a (name-room, recursion-depth) measure; encoder relation with "
@@ -328,8 +330,9 @@ def ref_decode(pkt, strict=True):
 
 
 def known_deviation(ref):
-    """The two proved deviations of rfc1035NameUnpack from the strict reading, applied to a reference decoding:
-    -> (finding id, text the real decoder is expected to print) or None."""
+    """The proved deviation of rfc1035NameUnpack from the reference reading (more than 65 pointer hops are refused),
+    applied to a reference decoding: -> (finding id, text the real decoder is expected to print) or None.
+    (Pointers to the root label used to be a second one, fixed in /repo fd17dd6: such names must decode faithfully.)"""
     info = ref["info"]
     h, q, rrs = ref["h"], ref["q"], ref["rrs"]
     if info["deep"]:
@@ -341,17 +344,6 @@ def known_deviation(ref):
             return None
         kept = rrs[:first]
         return "C37-deep-pointer-chain-rejected", (show_msg(len(kept), h, q, kept) if kept else "rc=-15 null")
-    if info["rootptr"]:
-        q2 = dict(q)
-        rr2 = [dict(r) for r in rrs]
-        for w in info["rootptr"]:
-            if w[0] == "q":
-                q2["name"] = q2["name"] + b"."
-            elif w[0] == "n":
-                rr2[w[1]]["name"] = rr2[w[1]]["name"] + b"."
-            else:
-                rr2[w[1]]["rdata"] = rr2[w[1]]["rdata"] + b"."
-        return "C37-pointer-to-root-trailing-dot", show_decoded(h, q2, rr2)
     return None
 
 
@@ -645,7 +637,7 @@ def gen_boundary(rng, tier):
     # header sizes
     for n in (0, 1, 11, 12, 13, 16, 17):
         out.append("m " + hx((struct.pack(">HHHHHH", 7, 0x8180, 1, 0, 0, 0) + b"\0" + tail)[:n]))
-    # pointer to a root label (known deviation: trailing dot), and a bare pointer to root (decodes to the empty name)
+    # label(s) + pointer to a root label (decoded with a trailing dot before /repo fd17dd6), and a bare pointer to root
     pkt, exp, e = simple_packet(rng, [b"q"], [])
     root_at = 12 + 2
     hh = rand_header(rng, 2, rcode=0)
@@ -1038,66 +1030,25 @@ def compare(line, impl, model):
         return impl.startswith("abort:") and "anitizer" not in impl
     if impl == model:
         return True
-    # on the inputs where the model (= the code as it is) is proved to depart from the property, a repaired
-    # implementation may give the faithful answer instead of the model's
+    # on the inputs where the model (= the code as it is) is proved to depart from the property (names needing more than
+    # 65 pointer hops), a repaired implementation may give the faithful answer instead of the model's
     toks = line.split(" ")
     if toks[0] == "m":
-        ref = ref_decode(unhx(toks[1])) or ref_decode(unhx(toks[1]), strict=False)
-        if ref is not None and known_deviation(ref) is not None and impl == ref["show"]:
-            return True
-        return same_but_trailing_dots(impl, model)
+        ref = ref_decode(unhx(toks[1]))
+        return ref is not None and known_deviation(ref) is not None and impl == ref["show"]
     if toks[0] == "n":
         ref = n_reference(toks)
-        if ref is not None and (ref[3] or ref[2] > MAXHOPS_IMPL) and n_faithful(ref, impl):
-            return True
-        # the stores of a repaired decoder: the '.' before the final NUL replaced by NUL, nothing else
-        return (impl.startswith("ok ") and model.startswith("ok ") and len(impl) == len(model) and model.endswith("2e00")
-                and impl == model[:-4] + "0000")
+        return ref is not None and ref[2] > MAXHOPS_IMPL and n_faithful(ref, impl)
     return False
 
 
-def same_but_trailing_dots(impl, model):
-    """the two message texts are equal except that names of the model end in a '.' that the implementation does not
-    print: the only visible effect of repairing the pointer-to-root deviation (C37-pointer-to-root-trailing-dot); a
-    well-formed name never ends in '.' in the model's output otherwise"""
-    a, b = impl.split(" "), model.split(" ")
-    if len(a) != len(b):
-        return False
-
-    def name_ok(x, y):
-        return x == y or (y.endswith("2e") and (x == y[:-2] or (x == "-" and y == "2e")))
-    for x, y in zip(a, b):
-        if x == y:
-            continue
-        if x.startswith("q=") and y.startswith("q="):
-            fx, fy = x[2:].split("/"), y[2:].split("/")
-            if len(fx) != 3 or len(fy) != 3 or fx[1:] != fy[1:] or not name_ok(fx[0], fy[0]):
-                return False
-        elif x.startswith("rr=") and y.startswith("rr="):
-            rx, ry = x[3:].split(","), y[3:].split(",")
-            if len(rx) != len(ry):
-                return False
-            for u, v in zip(rx, ry):
-                fu, fv = u.split("/"), v.split("/")
-                if len(fu) != 6 or len(fv) != 6 or fu[1:5] != fv[1:5] or not name_ok(fu[0], fv[0]):
-                    return False
-                if fu[5] != fv[5] and not (fu[1] == str(T_PTR) and name_ok(fu[5], fv[5])):
-                    return False
-        else:
-            return False
-    return True
-
-
 def classify(line, impl, why):
+    """only C37-deep-pointer-chain-rejected is a known finding; the memcpy(NULL) of the OPT record (17d6e84) and the
+    trailing dot behind a pointer to the root label (fd17dd6) are fixed: if they come back they are violations"""
     toks = line.split(" ")
     why = why or ""
-    if toks[0] == "q" and why.startswith(UB_WHY):
-        ub, _ = split_ub(impl)
-        if ub == "ub:memcpy-null@rfc1035RRPack" and int(toks[3]) > 0:
-            return "C37-optpack-memcpy-null"
-        return None
     if toks[0] == "m" and ("decoded differently" in why or "differs from the encoded" in why):
-        ref = ref_decode(unhx(toks[1])) or ref_decode(unhx(toks[1]), strict=False)
+        ref = ref_decode(unhx(toks[1]))
         if ref is None:
             return None
         dev = known_deviation(ref)
@@ -1111,8 +1062,6 @@ def classify(line, impl, why):
         labels, end, hops, rootptr, total = ref
         if hops > MAXHOPS_IMPL and impl == "err":
             return "C37-deep-pointer-chain-rejected"
-        if rootptr and hops <= MAXHOPS_IMPL and impl == "ok off=%d rdl=%d out=%s" % (end, total, hx(join(labels) + b".\0")):
-            return "C37-pointer-to-root-trailing-dot"
     return None
 
 
